@@ -231,6 +231,11 @@ type judgeInput struct {
 	// mutated: a Tree of this case went through a byte-level fault
 	// (so "well-formed" is not known by construction).
 	mutated bool
+	// timestampInjected: the result was stored through a stack whose top
+	// level sets execution_metadata.worker_completed_timestamp on upload when
+	// the client left it out (documented behaviour of the configured Action
+	// Cache); that one field is then not compared.
+	timestampInjected bool
 	// describe renders the case for failure messages.
 	describe func() string
 }
@@ -248,6 +253,12 @@ func judge(t fataler, in judgeInput) string {
 		}
 		if err := proto.Unmarshal(in.stored, &want); err != nil {
 			t.Fatalf("harness: stored ActionResult does not parse: %v", err)
+		}
+		if in.timestampInjected && want.GetExecutionMetadata().GetWorkerCompletedTimestamp() == nil && got.GetExecutionMetadata().GetWorkerCompletedTimestamp() != nil {
+			got.ExecutionMetadata.WorkerCompletedTimestamp = nil
+			if want.ExecutionMetadata == nil && proto.Size(got.ExecutionMetadata) == 0 {
+				got.ExecutionMetadata = nil
+			}
 		}
 		if !proto.Equal(&got, &want) {
 			t.Fatalf("decorator returned an ActionResult different from the stored one\n%s", in.describe())
@@ -268,7 +279,10 @@ func judge(t fataler, in judgeInput) string {
 			if len(v.missing) > 0 && containsDigest(v.missing, d) {
 				t.Fatalf("ActionResult returned although referenced object %s (%v) is absent from the CAS\n%s", d, v.refs[d], in.describe())
 			}
-			if !in.spy.reported[d] && !in.spy.served[d] {
+			// (in.spy == nil: the CAS was assembled by the configuration
+			// code and cannot be observed; its contents do not change
+			// during the call, so presence is what it reports.)
+			if in.spy != nil && !in.spy.reported[d] && !in.spy.served[d] {
 				t.Fatalf("ActionResult returned although referenced object %s (%v) was not reported present by the CAS during this call (asked=%v)\n%s", d, v.refs[d], in.spy.asked[d], in.describe())
 			}
 		}
